@@ -992,8 +992,10 @@ func (p *Parser) newLit(r rune) {
 		// sentinel runes not present in the input as-is
 		p.litBs = p.litBuf[:0]
 	default:
-		w := utf8.RuneLen(r)
-		p.litBs = append(p.litBuf[:0], p.bs[p.bsp-uint(w):p.bsp]...)
+		// Encode the rune rather than copying its bytes out of the read buffer:
+		// a look-ahead may have refilled the buffer since r was read,
+		// such as the stop word check in next, and then they are gone.
+		p.litBs = utf8.AppendRune(p.litBuf[:0], r)
 	}
 }
 
